@@ -257,6 +257,64 @@ func ruleShorteningGuards(p *Prog, r *Report, rule string) {
 				}
 			})
 			r.Check(okArgs == 2, fnName(fn), "separator-operands", "Separator(prevKey, key) between blocks, Successor(prevKey) at the end", fmt.Sprintf("%d of 2 calls with the right operands", okArgs), p.Pos(fn.Pos()))
+			// between two blocks (a next key exists) the index key must be STRICTLY below the next
+			// block's first key: the comparer's Separator(prevKey, key) guarantees that; a Successor
+			// of prevKey does not (it may EQUAL the next key, which sends lookups of that key — and
+			// its filter probe — to the wrong block). So with a non-empty key, a Successor result
+			// reaches the index entry only over a comparison edge that establishes succ < key.
+			{
+				r.Site(1)
+				isSucc := func(in ssa.Instruction) bool {
+					c, ok := in.(*ssa.Call)
+					return ok && c.Call.IsInvoke() && c.Call.Method.Name() == "Successor"
+				}
+				isSepCall := func(in ssa.Instruction) bool {
+					c, ok := in.(*ssa.Call)
+					return ok && c.Call.IsInvoke() && c.Call.Method.Name() == "Separator"
+				}
+				isLenKey := func(v ssa.Value) bool {
+					c, ok := stripConv(v).(*ssa.Call)
+					return ok && isCallTo(c, "builtin:len") && mParam("key")(c.Call.Args[0])
+				}
+				// len(key) == 0, knowing that a length is never negative (so `> 0` is its negation)
+				lastBlock := Atom{Name: "len(key)==0", Match: func(cond ssa.Value) (int, int) {
+					b, ok := cond.(*ssa.BinOp)
+					if !ok || !isCmpOp(b.Op) {
+						return 0, 0
+					}
+					op := b.Op
+					switch {
+					case isLenKey(b.X) && mConstInt(0)(b.Y):
+					case isLenKey(b.Y) && mConstInt(0)(b.X):
+						op = map[token.Token]token.Token{token.LSS: token.GTR, token.LEQ: token.GEQ, token.GTR: token.LSS, token.GEQ: token.LEQ, token.EQL: token.EQL, token.NEQ: token.NEQ}[op]
+					default:
+						return 0, 0
+					}
+					switch op {
+					case token.EQL, token.LEQ:
+						return +1, -1
+					case token.NEQ, token.GTR:
+						return -1, +1
+					}
+					return 0, 0
+				}}
+				below := cmpAtom("Compare(succ,key)<0", token.LSS, func(v ssa.Value) bool {
+					c, ok := stripConv(v).(*ssa.Call)
+					return ok && c.Call.IsInvoke() && c.Call.Method.Name() == "Compare"
+				}, mConstInt(0))
+				appendIdx := func(in ssa.Instruction) bool { return in == ssa.Instruction(idx) }
+				as := []Atom{lastBlock, below}
+				vs := []bool{false, false}
+				if countInstr(fn, isSucc) == 0 {
+					r.OK(fnName(fn), "index-key-below-next", "no Successor call: the index key between blocks comes from Separator")
+				} else if findPathV(entryPoint(fn), atomEdges(as, vs), nil, isSucc, atomVals(as, vs)) == nil {
+					r.OK(fnName(fn), "index-key-below-next", "Successor is computed for the last block only (no next key)")
+				} else if w := findPathV(after(fn, isSucc), atomEdges(as, vs), isSepCall, appendIdx, atomVals(as, vs)); w != nil {
+					r.Fail(fnName(fn), "index-key-below-next", "between two blocks the index key is strictly below the next block's first key (Separator, or a Successor proven < key)", "with a next key present, Successor(prevKey) can reach the index entry without Separator and without a comparison establishing succ < key: an index key equal to the next block's first key sends that key's lookup and filter probe to the wrong block", p.posOfLast(w, appendIdx), p.renderPath(w))
+				} else {
+					r.OK(fnName(fn), "index-key-below-next", "between two blocks the index key is strictly below the next block's first key (Separator, or a Successor proven < key)")
+				}
+			}
 			// the handle recorded is the pending (just written) block
 			checkCallArgEncode(p, r, fn)
 		}
